@@ -144,8 +144,14 @@ Definition unmodelled_typ (t : N) : bool :=
 Definition interp_real (r : frec) : outcome unit :=
   let t := f_typ r in
   if t =? 66 then                                  (* 0x0042 CodePage (force_codepage is None) *)
+    (* since the fix of audit-2 finding XLS-1 XlsEncoding::from_codepage is only called when the
+       BOF seen so far is not BIFF8 (BIFF8 strings never go through the code page).  This
+       record-by-record instance does not carry the BIFF version: a code page of the decoder
+       table passes under every version; any other value passes under BIFF8 (C16 / C12 model
+       that: Meta.xls_globals, BiffSst.wb_globals) and is CfbError::CodePageNotFound under BIFF5
+       and older — E_UNMODELLED here (the check accepts both answers of the reader for it) *)
     match f_data r with
-    | a :: b :: _ => if existsb (N.eqb (u16 a b)) CODE_PAGES then Ok tt else Err E_OTHER
+    | a :: b :: _ => if existsb (N.eqb (u16 a b)) CODE_PAGES then Ok tt else Err E_UNMODELLED
     | _ => Err E_OTHER                             (* data.len() < 2: XlsError::Len (hardening) *)
     end
   else if t =? 34 then                             (* 0x0022 Date1904: Len under 2 bytes *)
